@@ -384,12 +384,22 @@ impl GmWorld {
                 return "ok".into();
             }
             "g.region" => {
+                // C10: a region whose end would exceed the address space is refused at creation
+                let fits = (kv.n("start") as u128 + kv.n("len") as u128) < (1u128 << 64);
                 return match self.make_region(kv) {
                     Ok(r) => {
+                        if !fits {
+                            rec.fail("C10", "g.region/accepted-past-address-space", line);
+                        }
                         self.pending.get_mut(&mi).unwrap().push(r);
                         "ok".into()
                     }
-                    Err(e) => e,
+                    Err(e) => {
+                        if fits && e == "err invalidregion" {
+                            rec.fail("C10", "g.region/refused-fitting-region", line);
+                        }
+                        e
+                    }
                 };
             }
             "g.build" => {
@@ -693,6 +703,18 @@ impl GmWorld {
                     rec.fail("C14", &format!("{}/consumed-beyond-run", kv.op), line);
                 } else {
                     self.expect_write(&lay, a, &consumed);
+                    // C14: every byte consumed from the reader is stored at the next guest address in order
+                    let mut now = Vec::new();
+                    let mut cur = a;
+                    while now.len() < k {
+                        let Some((r, off)) = Self::locate(&lay, cur) else { break };
+                        let take = (r.len - off).min(k - now.len());
+                        now.extend_from_slice(&self.region_bytes(&self.regs[&r.rid])[off..off + take]);
+                        cur = cur.wrapping_add(take as u64);
+                    }
+                    if now != consumed {
+                        rec.fail("C14", &format!("{}/consumed-bytes-not-stored-in-order", kv.op), &format!("{} consumed={}", line, k));
+                    }
                 }
                 if failed_fd {
                     // the failing descriptor read marks the whole slice it was given: the rest of the current region window
